@@ -462,7 +462,7 @@ def _coq_bytes(hexs):
     return "[" + ";".join(str(b) for b in bytes.fromhex(hexs)) + "]"
 
 def _model_scenario(rng):
-    """Put / Get / Has / GetSize / Remove only, keys of bucket 7, every thread runs to completion inside the schedule: replayable on Conc2."""
+    """Put / Get / Has / GetSize / Remove / Flush, keys of bucket 7, every thread runs to completion inside the schedule: replayable on Conc2."""
     keys = rng.sample(CKEYS, rng.randint(2, 4))
     vals = ["61", "6262", "636363", "-", "6464646464646464"]
     setup = []
@@ -475,7 +475,7 @@ def _model_scenario(rng):
             setup.append("setup put %s %s" % (rng.choice(keys), rng.choice(vals)))
     writers, th = set(), []
     for i in range(rng.randint(2, 4)):
-        kind = rng.choice(("put", "put", "get", "get", "remove", "has", "size"))
+        kind = rng.choice(("put", "put", "get", "get", "remove", "has", "size", "flush"))
         k = rng.choice(keys)
         if kind in ("put", "remove"):
             cand = [x for x in keys if x not in writers]
@@ -483,9 +483,9 @@ def _model_scenario(rng):
                 kind = "get"
             else:
                 k = rng.choice(cand); writers.add(k)
-        th.append(("T%d" % i, "put %s %s" % (k, rng.choice(vals)) if kind == "put" else "%s %s" % (kind, k)))
+        th.append(("T%d" % i, "put %s %s" % (k, rng.choice(vals)) if kind == "put" else ("flush" if kind == "flush" else "%s %s" % (kind, k))))
     names = [t[0] for t in th]
-    sched = [rng.choice(names) for _ in range(rng.randint(4, 16))] + names * 6      # everybody finishes inside the schedule
+    sched = [rng.choice(names) for _ in range(rng.randint(4, 16))] + names * 8      # everybody finishes inside the schedule
     return "cfg bits=8 imax=1048576 pmax=1048576 timeout_ms=3000 quiet_ms=3000 model=1\n" + "\n".join(setup) + ("\n" if setup else "") + \
            "".join("thread %s %s\n" % t for t in th) + "schedule " + " ".join(sched) + "\n"
 
@@ -515,6 +515,8 @@ def _model_case(txt, r):
                 calls.append("QHas %s" % _coq_bytes(f[3]))
             elif f[2] == "size":
                 calls.append("QSize %s" % _coq_bytes(f[3]))
+            elif f[2] == "flush":
+                calls.append("QFlush")
             else:
                 return None
     if r["stuck"] or r.get("quiet_timeouts", 1) or r.get("unfinished_at_free_run", 1):
@@ -528,6 +530,8 @@ def _model_case(txt, r):
             sched.append(t)                 # the bucket has been read: the lookup step
         elif pt == "store.Put.afterPrimaryPut":
             sched.append(t)                 # the record is in the primary pool
+        elif pt == "index.Flush.afterSwap":
+            sched.append(t)                 # the pools have been swapped: the model's Flush step
         elif pt == "done":
             sched += [t, t]                 # what is left: primary read / index mutation (extra steps are no-ops)
     exp = []
@@ -540,6 +544,8 @@ def _model_case(txt, r):
             exp.append("RErr" if t["res"] != "ROk" else "RBool %s" % ("true" if t["found"] else "false"))
         elif t["op"] == "size":
             exp.append("RErr" if t["res"] != "ROk" else "RSize %s %s" % ("true" if t["found"] else "false", t["out"] or "0"))
+        elif t["op"] == "flush":
+            exp.append("ROk" if t["res"] == "ROk" else "RErr")
     return "  ([%s],\n   [%s],\n   [%s]%%nat,\n   [%s])" % ("; ".join(setup), "; ".join(calls), "; ".join(map(str, sched)), "; ".join(exp))
 
 def _conc_scenarios(rng, n, gc):
